@@ -575,6 +575,11 @@ func snapshot(f *fixture) (s string) {
 		x, err := conv.FromPolicy(p)
 		jb, jerr := p.MarshalJSON()
 		fmt.Fprintf(&sb, "policy %s: %s %v\n%s\n%s %v\n%v %v\n", f.ids[i], ir.JSON(x), err, p.MarshalCedar(), jb, jerr, p.Position(), p == f.ps.Get(f.ids[i]))
+		// the part of a scope list's backing array beyond its length belongs to the policy too: an append through a copy of the
+		// slice header writes there without changing anything the encoders show
+		if sc, ok := (*xast.Policy)(p.AST()).Action.(xast.ScopeTypeInSet); ok {
+			fmt.Fprintf(&sb, "action list backing array: %v\n", sc.Entities[:cap(sc.Entities)])
+		}
 	}
 	var ids []string
 	for id := range f.ps.All() {
@@ -1085,18 +1090,17 @@ func genCase(rt *rapid.T, small bool) *Case {
 		// scope lists of every length 1..12 that name an action group of the fixture schema (view and edit are members of
 		// grp), parsed from text: whatever the validator and the authorizer derive from such a list (member actions,
 		// environments) must not be written into the shared policy
-		// (lengths up to 12, written in no particular order: a container chosen by size, or a sort, would show)
+		// (the group comes first: the validator stops at the first action it does not know; lengths up to 12, the others in
+		// no particular order: a container chosen by size, or a sort, would show)
 		for n := 1; n <= 12; n++ {
 			p := ir.NewPolicy(n%2 == 0)
-			var acts []ir.Value
-			for k := n - 1; k >= 1; k-- {
-				if k == n/2 {
-					acts = append(acts, ir.Ent(gen.ActionType, "grp"))
+			acts := []ir.Value{ir.Ent(gen.ActionType, "grp")}
+			for k := 1; k < n; k++ {
+				if n <= 8 {
+					acts = append(acts, ir.Ent(gen.ActionType, fmt.Sprintf("other%d", k)))
+				} else {
+					acts = append(acts, ir.Ent(gen.ActionType, fmt.Sprintf("other%d", (k*7)%13)))
 				}
-				acts = append(acts, ir.Ent(gen.ActionType, fmt.Sprintf("other%d", (k*7)%13)))
-			}
-			if n <= 2 {
-				acts = append(acts, ir.Ent(gen.ActionType, "grp"))
 			}
 			p.Action = ir.ScopeInSet(acts)
 			c.Policies = append(c.Policies, p)
